@@ -570,13 +570,17 @@ def applyRemoteOffer (n : Nat) : List Sec → List Nat → PC → PC
 def setRemote (pc : PC) (d : Desc) : PC × Res :=
   if pc.closed then (pc, .err) else
   let isRenegotiation := pc.curRemote.isSome
+  -- what can reject the description by looking at it alone runs before setDescription: a description without
+  -- m-sections (an empty SDP text, or an offer/answer of a PeerConnection with nothing to describe) carries no
+  -- ICE credentials (ErrSessionDescriptionMissingIceUfrag); pion-generated sections always have mid, ICE
+  -- credentials and a fingerprint
+  if d.secs.isEmpty then (pc, .err) else
   match setDescription pc false d with
   | none => (pc, .err)
   | some pc1 =>
     if d.offer then
       let pc2 := applyRemoteOffer pc1.trs.length d.secs [] pc1
-      if d.secs.isEmpty then (pc2, .errLate)                             -- ErrSessionDescriptionMissingIceUfrag
-      else if isRenegotiation then (pc2, .ok) else (enqueue pc2 (.st none), .ok)
+      if isRenegotiation then (pc2, .ok) else (enqueue pc2 (.st none), .ok)
     else ({ pc1 with tail := some (.remoteAnswer d isRenegotiation) }, .ok)
 
 /-- the rest of SetLocalDescription(answer) / SetRemoteDescription(answer) -/
@@ -587,7 +591,6 @@ def runTail (pc : PC) : Tail → PC × Res
     | none => ({ pc with tail := none, trs := trs }, .errLate)
     | some trs => ({ enqueue { pc with tail := none, trs := trs } (.rtp (remote.secs.any (·.app))) with gathered := true }, .ok)
   | .remoteAnswer ans isRenegotiation =>
-    if ans.secs.isEmpty then ({ pc with tail := none }, .errLate) else   -- ErrSessionDescriptionMissingIceUfrag
     let trs := setCurDirs true ans.secs [] pc.trs
     match startSenders trs with
     | none => ({ pc with tail := none, trs := trs }, .errLate)
